@@ -374,7 +374,7 @@ pub fn c04_c05_c06(c: &mut Ctx) {
                 let idx = ar.hooks.iter().position(|(s, _, _)| *s == ss).unwrap();
                 idx > 0 && matches!(ar.hooks[idx - 1].2, HookEv::RunExit(_, RunOutEv::Err(_)))
             };
-            let stop_step = h.ev.iter().find(|e| e.seq == ss).map(|e| e.step).unwrap_or(0);
+            let stop_step = h.step_of(ss).unwrap_or(0);
             let kill_ret_before = h.kills(a).iter().any(|o| matches!(&o.ret, Some(r) if r.0 < ss && r.2 != stop_step && r.3 == Res::Ok));
             if kill_ret_before && !after_run_err {
                 c.chk.hit("C06");
@@ -587,7 +587,7 @@ pub fn c08(c: &mut Ctx) {
                     if let Some(d) = disabled_at {
                         c.v("C08", "on_run-after-false", *seq, format!("actor {a}: on_run body executed ({e:?}) after it had returned Ok(false) at seq {d}"));
                     }
-                    let step_of = |s: u64| h.ev.iter().find(|x| x.seq == s).map(|x| x.step);
+                    let step_of = |s: u64| h.step_of(s);
                     for (o, r) in &tells {
                         if r < seq && step_of(*r) != step_of(*seq) {
                             let he = h.msgs.get(&o.mid.unwrap()).and_then(|m| m.henter.first().map(|x| x.0));
